@@ -19,7 +19,8 @@ RULE = ('Typed statement shapes (assignment, compound assignment, index assignme
         'if-else, the unparenthesised chain a if c else b if c2 else d, calls with 0-3 arguments, method and pipe calls, list '
         'and dict literals, index, four slice forms, a lambda body run twice by map) with a '
         'logging host probe at every leaf: ALL shapes up to the stated number of internal nodes x ALL truth assignments of '
-        'the scalar probes x every choice of one raising probe or none (exhaustive; distinct by construction), the '
+        'the scalar probes x every choice of one raising probe or none (exhaustive; distinct by construction; the exception '
+        'raised is a subclass of TypeError / KeyError / ValueError / IndexError / ZeroDivisionError / AttributeError / Exception in turn), the '
         'non-raising cases again on a parser with a parse cache (one tree evaluated under every assignment), plus '
         'Hypothesis-sampled larger shapes. Oracle: probe log equal to the reference evaluator\'s (exactly once, in order, '
         'nothing after a raising probe), same value and type. Non-trivial: >= 2 probes and a lazy construct, or >= 3 probes.')
@@ -162,6 +163,10 @@ def render(sh, ctr, lab=None):
 
 class Raise(Exception):
     pass
+
+
+# the raising probe raises a subclass of one of the exception types that library code commonly catches and retries / translates
+RAISE_CLASSES = [Raise] + [type('Raise' + b.__name__, (Raise, b), {}) for b in (TypeError, KeyError, ValueError, IndexError, ZeroDivisionError, AttributeError)]
 
 
 TRUTHY = [D(11), D(12), D(13), D(14), D(15), D(16), D(17), D(18)]
@@ -367,7 +372,7 @@ def run_one(sh, truth, raises, labmode='distinct', cached=False):
             i = int(i)
             log.append(i)
             if i == raises:
-                raise Raise()
+                raise RAISE_CLASSES[(raises + len(src)) % len(RAISE_CLASSES)]()
             return probe_value(i, typ, truth)
         return f
 
